@@ -14,7 +14,7 @@ RULE = (
     "class relative to the line count, filesystem kind, value seed}; the independent encoder "
     "writes raw big-endian sample bytes (random words sprinkled with NaN payloads, +-inf, +-0, "
     "denormals, 0x0000, 0xFFFF); oracle = the raw bytes themselves, compared word for word, for the "
-    "full load and for a generated window (rows a::s with s in {1..5,7,-1,-3}, columns c0:c1). "
+    "full load, for a generated window (rows a::s with s in {1..5,7,-1,-3}, columns c0:c1) and for a generated list of lines. "
     "Non-trivial: lines>=2 and pixels>=2 and at least two distinct sample words. Distinct = sha1 "
     "of the case dict."
     " One case in six also writes the index cache and reads the pixels again through it. Stage 'in-place-pairs': two such products with the same file names are materialised one after the other at the same root and both are judged."
@@ -59,6 +59,8 @@ def cases(draw, max_lines=48, max_pixels=32):
     window = {
         "rows": [draw(st.integers(0, n - 1)), draw(st.sampled_from([1, 2, 3, 4, 5, 7, -1, -3]))],
         "cols": sorted([draw(st.integers(0, p)), draw(st.integers(0, p))]),
+        # and a list of lines (sorted, unequal gaps, repeats)
+        "list": sorted(draw(st.lists(st.integers(0, n - 1), min_size=1, max_size=5))),
     }
     case = {"level": level, "images": images, "rpc": rpc, "fs": fs, "vseed": vseed, "window": window}
     if draw(st.integers(0, 5)) == 0:
@@ -136,6 +138,15 @@ def check_window(case, var, iinfo, exp, where):
     if values.size and not np.array_equal(want, got):
         bad = np.argwhere(want != got)
         return [harness.disc("pixel-bits", text, f"word 0x{int(want[tuple(bad[0])]):08x}", f"0x{int(got[tuple(bad[0])]):08x}", n_bad=int(len(bad)))]
+    lines = [min(i, iinfo["lines"] - 1) for i in w.get("list", [])]
+    if lines:
+        values, err = harness.guard(lambda: np.asarray(var.isel(rows=lines).values))
+        text = f"{where}[{lines}]"
+        if err is not None:
+            return [harness.disc("exception", text, "values", harness.exc_text(err))]
+        want = exp[lines]
+        if values.shape != (len(lines), iinfo["pixels"]) or not np.array_equal(want, observed_words(values, iinfo["type_code"])):
+            return [harness.disc("pixel-bits", text, "the samples of those lines", "other samples / shape", shape=list(values.shape))]
     return []
 
 
